@@ -2,6 +2,10 @@
 
 E  MC_ParamBind: all histories of assignments (every accepted form, every permutation of pairs, every
    subset of a partial dict, every rejection kind); BoundToName, RejectedBindsNothing, PartialKeepsOthers.
+   With WithRandom the menu also has dicts that bind names to DISTRIBUTIONS (frozen scipy distribution, (sampler, args) with
+   positional / keyword arguments; narrow pairwise disjoint supports, so an evaluation shows which distribution a name is
+   bound to) and the calls that re-draw them (integrate, integrate2, solve_stochast); RandomIffDistribution,
+   NumberEndsRedrawing, IntegrateKeepsBinding.
 G  every maximal history TLC generates is performed on a fresh real model; after every call
    eventRateVector / ode / grad of a model with rates theta_k * X_k must show the specification's binding.
 """
@@ -18,21 +22,26 @@ CONSTANTS
   MaxCalls = %(calls)d
   DumpOn = %(dump)s
   WithScalar = FALSE
+  WithRandom = %(rand)s
 INVARIANT BoundToName
 INVARIANT NeverHalfBound
+INVARIANT RandomIffDistribution
 INVARIANT Dump
 PROPERTY RejectedBindsNothing
 PROPERTY PartialKeepsOthers
+PROPERTY NumberEndsRedrawing
+PROPERTY IntegrateKeepsBinding
 CHECK_DEADLOCK FALSE
 """
 
 
-def tlc_run(rep, npar, calls, dump, simulate=None, seed=None):
+def tlc_run(rep, npar, calls, dump, simulate=None, seed=None, rand=False):
     d = tlc.scratch_dir("mc_parambind_")
     try:
         cfg = os.path.join(d, "pb.cfg")
         with open(cfg, "w") as f:
-            f.write(CFG % {"npar": npar, "calls": calls, "dump": "TRUE" if dump else "FALSE"})
+            f.write(CFG % {"npar": npar, "calls": calls, "dump": "TRUE" if dump else "FALSE",
+                           "rand": "TRUE" if rand else "FALSE"})
         res = tlc.run("MC_ParamBind", cfg=cfg, workers=mc.NPROC if not simulate else 1, coverage=not dump,
                       simulate=simulate, depth=(calls + 1 if simulate else None), seed=seed,
                       deadlock=not simulate, timeout=3000)
@@ -46,15 +55,19 @@ def tlc_run(rep, npar, calls, dump, simulate=None, seed=None):
 def run(rep, tier, seed):
     quick = tier == "quick"
     total = 0
-    plans = [(3, 2, None), (1, 3, None)] if quick else [(3, 3, None), (1, 3, None), (2, 3, None)]
-    sim = [(3, 3, "num=1500")] if quick else [(3, 4, "num=30000")]
-    for npar, calls, _ in plans:
-        res = tlc_run(rep, npar, calls, dump=False)
-        rep.add_tlc("MC_ParamBind(NPar=%d,MaxCalls=%d)" % (npar, calls), res, exhaustive=True)
-    runs = [(n, c, None) for n, c, _ in plans] + sim
+    # (NPar, MaxCalls, simulate, with distributions): the full menu of deterministic forms, and the reduced menu with
+    # bindings to distributions and the re-drawing integrations
+    plans = [(3, 2, None, False), (1, 3, None, False), (2, 3, None, True)] if quick else \
+        [(3, 3, None, False), (1, 3, None, False), (2, 3, None, False), (2, 4, None, True), (3, 3, None, True)]
+    sim = [(3, 3, "num=1500", False), (3, 5, "num=400", True)] if quick else \
+        [(3, 4, "num=30000", False), (3, 6, "num=6000", True)]
+    for npar, calls, _, rand in plans:
+        res = tlc_run(rep, npar, calls, dump=False, rand=rand)
+        rep.add_tlc("MC_ParamBind(NPar=%d,MaxCalls=%d%s)" % (npar, calls, ",WithRandom" if rand else ""), res, exhaustive=True)
+    runs = plans + sim
     forms = set()
-    for npar, calls, simulate in runs:
-        res = tlc_run(rep, npar, calls, dump=True, simulate=simulate, seed=seed % 100000)
+    for npar, calls, simulate, rand in runs:
+        res = tlc_run(rep, npar, calls, dump=True, simulate=simulate, seed=seed % 100000, rand=rand)
         hists = [h for h in res.printed() if isinstance(h, list)]
         if not hists:
             raise report.Machinery("no histories dumped by MC_ParamBind")
@@ -64,6 +77,9 @@ def run(rep, tier, seed):
             if k not in seen:
                 seen.add(k)
                 uniq.append(h)
+        if simulate and rand:
+            # histories with integrations are slow to perform (every one compiles and runs the integrators)
+            uniq = uniq[:1200 if quick else 12000]
         for h in uniq:
             for s in h:
                 forms.add(s["act"] + "/" + s["form"])
@@ -75,6 +91,8 @@ def run(rep, tier, seed):
                 mm = b["mismatch"]
                 acts = [s["act"] for s in b["hist"][:mm["step"]]]
                 key = mm["what"] + "|" + ">".join(a for a in acts if a.startswith("Reject"))
+                if acts and acts[-1] == "Integrate":
+                    key = mm["what"] + "|after-integration"
                 rep.violation("%s (step %d, input %s)" % (mm["what"], mm["step"], mm["input"]),
                               {"npar": npar, "history": b["hist"], "mismatch": mm}, key=key)
         rep.count(len(uniq))
@@ -82,7 +100,7 @@ def run(rep, tier, seed):
             rep.distinct((npar, repr(h)))
         rep.sample({"npar": npar, "history": uniq[len(uniq) // 2]}, limit=3)
     rep.traces(total)
-    for act in ("Positional", "Pairs", "Dict", "RejectWrongLength", "RejectUnknownPairs",
+    for act in ("Positional", "Pairs", "Dict", "DictRandom", "Integrate", "RejectWrongLength", "RejectUnknownPairs",
                 "RejectUnknownDict", "RejectTooMany", "RejectBadType"):
         if not any(f.startswith(act + "/") for f in forms):
             raise report.Machinery("action %s never occurred in the replayed histories (vacuous run)" % act)
